@@ -119,6 +119,51 @@ CLAIMS.update({
     ),
 })
 
+CLAIMS.update({
+    "C01": dict(
+        technique="MIR-based static analysis: return-shape summaries (F5), loop/exit structure of the stable solver (F2), id-provenance at by-id look-ups (F6), type-level ownership + compile_fail witness W3",
+        text="NARROW CLAIM. Decides only: (1) `no extension` (None) can be returned by the stable solver alone, every other SingleExtensionComputer "
+        "returns Some on all paths; (2) in the stable solver an unsatisfiable component returns None at once and the loop ranges over all components "
+        "of the caller's framework; (3) answers are the caller's arguments: static solvers own no framework data, by-id look-ups on the solver's own "
+        "framework never take a component-local id (results are mapped back by label), SE problems are dispatched to the solver the statement names. "
+        "NOT decided: that the returned set is an extension under the semantics, maximality, uniqueness, absence of duplicates (value clauses).",
+        ref="4/C01",
+    ),
+    "C02": dict(
+        technique="MIR-based static analysis: path/shape rule on the stable solver's UNSAT outcome with constant propagation from the entry points (F2/F5), dispatch tables (F5), membership-shape check",
+        text="NARROW CLAIM. Decides only the clauses the statement singles out: no stable extension in any component => NO for every credulous query "
+        "(UNSAT arm returns (status_on_unsat, None) immediately and the credulous entry point passes on_unsat=false); DC-PR is answered through the "
+        "complete solver and every (DC, semantics) pair through the solver type named by the statement; GR answers are membership tests in the one "
+        "grounded extension; certificate/status shapes. NOT decided: `YES exactly when some extension contains the argument` (value clause).",
+        ref="4/C02-C03",
+    ),
+    "C03": dict(
+        technique="MIR-based static analysis: path/shape rule on the stable solver's UNSAT outcome (F2/F5), dispatch tables (F5), membership-shape check, guard analysis of the preferred shortcut (F4)",
+        text="NARROW CLAIM. Decides only: no stable extension => YES for every skeptical ST query (entry point passes on_unsat=true); DS-CO (and SE-CO) "
+        "are answered through the grounded solver, every (DS, semantics) pair through the solver the statement names; GR/ID answers are membership "
+        "tests in the one computed extension; the preferred counter-example shortcut is guarded. NOT decided: `YES exactly when every extension "
+        "contains the argument`, correctness of the counter-example / range searches (value clauses).",
+        ref="4/C02-C03",
+    ),
+    "C04": dict(
+        technique="MIR-based static analysis: relational return-shape summaries over all 24 certificate methods (F5), must-pass-through of the completion loop (F2), guard + constant of the shortcut (F4), id provenance (F6), ownership",
+        text="Decides the shape and assembly clauses: every credulous certificate method returns only (true,Some)/(false,None) and every skeptical one "
+        "only (true,None)/(false,Some) on all paths including helpers, caches and dyn dispatch; a certificate decided on the merged component of the "
+        "query is returned only after draining the remaining components; the non-maximal shortcut is never taken when a certificate is wanted; "
+        "members are the caller's arguments (label mapping, ownership). NOT decided: that the assembled set is an extension / contains / omits the "
+        "queried argument as a value fact - in particular the dynamic preferred solver's cached certificate (D10 in DESIGN.md) is outside this family.",
+        ref="4/C04",
+    ),
+    "C07": dict(
+        technique="MIR-based static analysis: tag propagation (literal role x polarity x list completeness) from arg_to_lit to every SAT clause/assumption sink (F6), delegation table (F5)",
+        text="Decides for all list lengths and placements at once that listed arguments are encoded as a disjunction: positive images of the query list "
+        "reach clauses only from the whole list, only negated images reach assumptions, no clause over a filtered part of the list; with/without "
+        "certificate variants agree by delegation or are both checked. One known finding (stable credulous lists across components, D5) is listed "
+        "in known_findings.json. NOT decided: the status values themselves.",
+        ref="4/C07",
+    ),
+})
+
 NOT_APPLICABLE = {
     "C19": "Merged arguments being indistinguishable under complete semantics is a semantic fact about a propagation algorithm over all graphs; "
     "no structural necessary condition of value remains for a static rule (DESIGN.md section 4/C19).",
